@@ -4,6 +4,13 @@ Base grid: N = 64 samples of step 2^-30 s (0.93 ns) starting at sample 11; the b
 For every solution of the tracer at the state's geometry the base outputs propagate(s_i, e_j) (s and p parts) and
 propagate(s_i) are computed at the initial state; at every later state propagate() of the combined input is
 compared with the predicted combination (1e-9 of the largest base output times the sum of |coefficients|).
+
+The compared calls are made on one long-lived path object per (tracer, geometry); the base outputs of every grid
+step come from a fresh tracer each (cached per worker: they are deterministic), so state that a path keeps from
+an earlier propagate() -- e.g. an attenuation table keyed by the number of samples -- shows as a divergence after
+ChangeStep.  Independently of the relations the base outputs are compared with an explicit transcription of the
+documented meaning: zero-padded FFT, every component times attenuation(|f|) times the Fresnel coefficient
+(conjugated at negative frequencies), scaled by the projection of the polarization on the launch s / p direction.
 """
 import numpy as np
 import pyrex
@@ -11,6 +18,7 @@ from vlib.core import Divergence
 from drivers.symmetry_drv import make
 
 DT = 2.0 ** -30
+STEP = {1: 1.0, 2: 2.0, 3: 0.5}                # grid step in units of DT
 N = 64
 S1 = np.zeros(N)
 S1[20:26] = [3, -7, 12, -9, 4, -1]
@@ -21,14 +29,30 @@ GEOS = {1: ((0, 0, -100), (100, 0, -200)),
         2: ((0, 0, -1000), (500, 300, -50)),
         3: ((10, 20, -500), (10, 20, -100)),        # exactly vertical
         4: ((0, 0, -150), (300, 0, -150)),
-        5: ((-40, 30, -30), (200, -100, -700))}
+        5: ((-40, 30, -30), (200, -100, -700)),
+        6: ((10, 20, -1000), (10.0, 20.2, -100))}   # nearly vertical (launch angle 2e-4 rad)
 INTERP = {0: None, 1: 0.1}
 FREQS = np.array([0.0, 1e6, 1e7, 5e7, 1e8, 2e8, 3e8, 5e8, 7e8, 1e9])
 TOL = 1e-9
 
 
-def grid(mg):
-    return (11 + mg + np.arange(N)) * DT
+def grid(mg, sx=1):
+    return (11 + mg + np.arange(N)) * (DT * STEP[sx])
+
+
+def oracle(values, dt, att, r):
+    """documented meaning of propagate(): zero-padded FFT filter with attenuation(|f|) * r (conjugate for f < 0)"""
+    n = len(values)
+    spec = np.fft.fft(np.concatenate((values, np.zeros(n))))
+    f = np.fft.fftfreq(2 * n, d=dt)
+    resp = np.asarray(att(np.abs(f)), dtype=float) * np.where(f < 0, np.conj(complex(r)), complex(r))
+    return np.real(np.fft.ifft(spec * resp))[:n]
+
+
+def unit(v):
+    v = np.asarray(v, dtype=float)
+    m = np.linalg.norm(v)
+    return v / m if m else v
 
 
 class PropagateDriver:
@@ -36,6 +60,7 @@ class PropagateDriver:
         self.calls = 0
         self.known = []
         self.cache = {}
+        self.basecache = {}
 
     def stats(self):
         st = {'propagate_calls': self.calls}
@@ -43,20 +68,23 @@ class PropagateDriver:
         return st
 
     def cleanup(self):
-        self.base = None
+        self.bases = {}
+
+    def fresh_paths(self, st):
+        cls, ice, tol, gradient = make(st['tracer'])
+        src, dst = GEOS[st['geo']]
+        tr = cls(np.array(src, dtype=float), np.array(dst, dtype=float), ice)
+        return list(tr.solutions)
 
     def paths(self, st):
         key = (st['tracer'], st['geo'])
         if key not in self.cache:
-            cls, ice, tol, gradient = make(st['tracer'])
-            src, dst = GEOS[st['geo']]
-            tr = cls(np.array(src, dtype=float), np.array(dst, dtype=float), ice)
-            self.cache[key] = list(tr.solutions)
+            self.cache[key] = self.fresh_paths(st)
         return self.cache[key]
 
-    def prop(self, path, values, pol, mg, interp):
+    def prop(self, path, values, pol, mg, interp, sx=1):
         self.calls += 1
-        sig = pyrex.Signal(grid(mg), values, value_type='field')
+        sig = pyrex.Signal(grid(mg, sx), values, value_type='field')
         kw = {} if interp is None else {'attenuation_interpolation': interp}
         if pol is None:
             return sig, path.propagate(sig, **kw)
@@ -65,24 +93,77 @@ class PropagateDriver:
     def reset(self, st):
         self.known = []
         self.tracer = st['tracer']
-        interp = INTERP[st['interp']]
-        self.base = []
-        self.gain = []
-        for k, path in enumerate(self.paths(st)):
-            where = '%s geometry %d solution %d' % (st['tracer'], st['geo'], k)
-            Bs = [[None] * 3 for _ in range(2)]
-            Bp = [[None] * 3 for _ in range(2)]
-            B0 = [None] * 2
-            for i in range(2):
-                B0[i] = np.array(self.prop(path, BASIS[i], None, 0, interp)[1].values)
-                for j in range(3):
-                    (s, p), _ = self.prop(path, BASIS[i], E[j], 0, interp)[1]
-                    Bs[i][j], Bp[i][j] = np.array(s.values), np.array(p.values)
-            big = max(float(np.max(np.abs(x))) for x in B0 + sum(Bs, []) + sum(Bp, []))
-            self.base.append((Bs, Bp, B0, big))
-            self.static(path, where)
-            rs, rp = path.fresnel
-            self.gain.append(max(1.0, abs(rs), abs(rp)) ** 2 if self.known else 1.0)
+        self.bases = {}
+        self.get_base(st, 1)
+
+    def get_base(self, st, sx):
+        """base outputs on the grid of step index sx, from a fresh tracer; cached per worker (deterministic)"""
+        key = (st['tracer'], st['geo'], st['interp'], sx)
+        if key not in self.basecache:
+            interp = INTERP[st['interp']]
+            out, known = [], []
+            for k, path in enumerate(self.fresh_paths(st)):
+                where = '%s geometry %d solution %d (grid step %g)' % (st['tracer'], st['geo'], k, STEP[sx])
+                Bs = [[None] * 3 for _ in range(2)]
+                Bp = [[None] * 3 for _ in range(2)]
+                B0 = [None] * 2
+                for i in range(2):
+                    B0[i] = np.array(self.prop(path, BASIS[i], None, 0, interp, sx)[1].values)
+                    for j in range(3):
+                        (s, p), _ = self.prop(path, BASIS[i], E[j], 0, interp, sx)[1]
+                        Bs[i][j], Bp[i][j] = np.array(s.values), np.array(p.values)
+                big = max(float(np.max(np.abs(x))) for x in B0 + sum(Bs, []) + sum(Bp, []))
+                n_known = len(self.known)
+                self.static(path, where)
+                self.meaning(path, where, Bs, Bp, B0, big, interp, sx)
+                rs, rp = path.fresnel
+                gain = max(1.0, abs(rs), abs(rp)) ** 2 if len(self.known) > n_known else 1.0
+                known += self.known[n_known:]
+                out.append((Bs, Bp, B0, big, gain))
+            self.basecache[key] = (out, known)
+        out, known = self.basecache[key]
+        for kf in known:
+            if kf not in self.known:
+                self.known.append(kf)
+        self.bases[sx] = out
+        return out
+
+    def meaning(self, path, where, Bs, Bp, B0, big, interp, sx):
+        """base outputs against the documented meaning of propagate()"""
+        dt = DT * STEP[sx]
+        rs, rp = path.fresnel
+        em = unit(path.emitted_direction)
+        us, up1 = path.propagate(polarization=[0, 0, 1])
+        us0 = unit(np.cross(em, [0, 0, 1]))
+        if not np.any(us0):
+            us0 = unit(us)                           # vertical ray: any horizontal direction; take the one the code reports
+            if abs(us0[2]) > 1e-12:
+                raise Divergence(where + ': s direction of a vertical ray', 'horizontal', list(us0))
+        elif not np.allclose(us0, us, rtol=0, atol=1e-9):
+            raise Divergence(where + ': s direction', list(us0), list(np.asarray(us, dtype=float)))
+        up0 = unit(np.cross(us0, em))
+        exact = interp is None or self.tracer in ('uniform', 'layered')
+        tol = TOL * max(big, 1e-300) * 10
+        for i in range(2):
+            if exact:
+                want0 = oracle(BASIS[i], dt, path.attenuation, 1.0)
+                if float(np.max(np.abs(B0[i] - want0))) > tol:
+                    k = int(np.argmax(np.abs(B0[i] - want0)))
+                    raise Divergence(where + ': propagate(s%d) without polarization vs attenuation(|f|) applied to the zero-padded '
+                                     'spectrum, sample %d' % (i + 1, k), float(want0[k]), float(B0[i][k]))
+            for j in range(3):
+                for nm, B, u, r in (('s', Bs, us0, rs), ('p', Bp, up0, rp)):
+                    proj = float(np.dot(E[j], u))
+                    if exact:
+                        want = proj * oracle(BASIS[i], dt, path.attenuation, r)
+                    elif abs(np.imag(r)) < 1e-15:
+                        want = proj * float(np.real(r)) * B0[i]
+                    else:
+                        continue
+                    if float(np.max(np.abs(B[i][j] - want))) > tol:
+                        k = int(np.argmax(np.abs(B[i][j] - want)))
+                        raise Divergence('%s: %s output of propagate(s%d, e%d) vs (e . u_%s at launch) x Fresnel x attenuation, sample %d' % (
+                            where, nm, i + 1, j + 1, nm, k), float(want[k]), float(B[i][j][k]))
 
     def static(self, path, where):
         """clauses that do not depend on the input signal"""
@@ -123,29 +204,30 @@ class PropagateDriver:
 
     def step(self, label, st):
         interp = INTERP[st['interp']]
-        a, c, mg = st['a'], st['c'], st['mg']
+        a, c, mg, sx = st['a'], st['c'], st['mg'], st['sx']
+        base = self.bases.get(sx) or self.get_base(st, sx)
         vals = a[0] * S1 + a[1] * S2
         pol = c[0] * E[0] + c[1] * E[1] + c[2] * E[2]
         M, R = st['M'], st['R']
         e_in = float(np.sum(vals ** 2))
         for k, path in enumerate(self.paths(st)):
-            Bs, Bp, B0, big = self.base[k]
-            where = '%s geometry %d solution %d after %s (a=%s, c=%s, grid moved %d, interpolation %s)' % (
-                st['tracer'], st['geo'], k, st['last']['op'], list(a), list(c), mg, interp)
-            sig, out = self.prop(path, vals, None, mg, interp)
+            Bs, Bp, B0, big, gain = base[k]
+            where = '%s geometry %d solution %d after %s (a=%s, c=%s, grid moved %d, step %g, interpolation %s)' % (
+                st['tracer'], st['geo'], k, st['last']['op'], list(a), list(c), mg, STEP[sx], interp)
+            sig, out = self.prop(path, vals, None, mg, interp, sx)
             self.same_grid(where + ' [no polarization]', sig, out, path)
             want = sum(R[i] * B0[i] for i in range(2))
             self.close(where + ' [no polarization]', np.asarray(out.values), want, big * max(1, sum(abs(x) for x in R)))
             if float(np.sum(np.asarray(out.values) ** 2)) > e_in * (1 + 1e-9) + 1e-300:
                 raise Divergence(where + ' [no polarization]: output energy', '<= %g' % e_in, float(np.sum(np.asarray(out.values) ** 2)))
-            sig, ((s, p), (us, up)) = self.prop(path, vals, pol, mg, interp)
+            sig, ((s, p), (us, up)) = self.prop(path, vals, pol, mg, interp, sx)
             self.same_grid(where + ' [s]', sig, s, path)
             self.same_grid(where + ' [p]', sig, p, path)
             wsum = max(1, sum(abs(x) for row in M for x in row))
             self.close(where + ' [s]', np.asarray(s.values), sum(M[i][j] * Bs[i][j] for i in range(2) for j in range(3)), big * wsum)
             self.close(where + ' [p]', np.asarray(p.values), sum(M[i][j] * Bp[i][j] for i in range(2) for j in range(3)), big * wsum)
             e_out = float(np.sum(np.asarray(s.values) ** 2) + np.sum(np.asarray(p.values) ** 2))
-            if e_out > self.gain[k] * float(np.dot(pol, pol)) * e_in * (1 + 1e-9) + 1e-300:
+            if e_out > gain * float(np.dot(pol, pol)) * e_in * (1 + 1e-9) + 1e-300:
                 raise Divergence(where + ': energy of s + p outputs', '<= |c|^2 * input energy = %g' % (float(np.dot(pol, pol)) * e_in), e_out)
             self.vectors(where, us, up, path)
 
